@@ -307,11 +307,14 @@ public:
 		timeout.clear();
 		lru.clear();
 		primary.clear();
-		primary.rehash(limit);
 		triggers.clear();
-		triggers.rehash(limit);
 		size = 0;
 		triggers_count = 0;
+		// re-create the bucket vectors only after every container has given its memory back:
+		// rehash() allocates, and a std::bad_alloc thrown from here (nl_clear runs inside the
+		// bad_alloc handler of store) must not leave the trigger index pointing at deleted entries
+		primary.rehash(limit);
+		triggers.rehash(limit);
 	}
 	virtual void clear()
 	{
